@@ -2,6 +2,7 @@ import CatiiProofs.IIndexShift
 import CatiiProofs.IIndexWf
 import CatiiProofs.Append
 import CatiiProofs.Filtered
+import CatiiProofs.Update
 import CatiiProofs.FromArray
 /-!
 # C07 — every operation preserves index well-formedness
@@ -12,7 +13,7 @@ coordinates within the shape, no row under two values of the same column.  `wf` 
 version the harness evaluates on every real result; `wf_sound` ties the two.
 
 **Partial**: preservation is proved for `shift_common` (any value, and the library-chosen one),
-`copy`, `append` (any operands with the same higher shape whose rows fit 32 bits), `filtered` (any mask) and construction
+`copy`, `append` (any operands with the same higher shape whose rows fit 32 bits), `filtered` (any mask), `update` (any consistent cell assignments) and construction
 from arrays (`CatiiProps/C01`); for the other operations it is checked after every step of every generated history
 on the real code (`validate(True)` plus the range / arity / non-emptiness conditions) and on the
 model (`wf`), but is not yet a theorem.
@@ -37,6 +38,12 @@ theorem append_preserves_partial (i other : IIndex) (ok : AppendOK i other) (hnd
 theorem filtered_preserves_partial (i : IIndex) (mask : List Bool) (n' : Nat) (ok : FilterOK i mask n')
     (hnd : i.ndim ≤ 2) (r : IIndex) (hr : filtered i mask n' = .ok r) : WF r :=
   (filtered_refines ok hnd r hr).1
+
+/-- `update(entries)` preserves well-formedness, for any consistent dictionary of cell assignments -/
+theorem update_preserves_partial (i : IIndex) (ents : List (Key × Rows)) (ok : UpdateOK i ents) :
+    ∃ r, update i ents = .ok r ∧ WF r := by
+  obtain ⟨r, h1, h2, _⟩ := update_refines ok
+  exact ⟨r, h1, h2⟩
 
 /-- consequence named by the property: after re-encoding nothing is listed under the common value
 and no entry is empty, so the set of listed values contains no category that occurs nowhere -/
